@@ -37,6 +37,7 @@ Definition thrC (g : glob) (l : loc) : Prop :=
   | U_df _ None => unfixed g = true
   | U_df n (Some k) => cs_of g k = Some Destr
   | U_ln n | U_zd n _ | U_zf n _ => forall k, znd g n = Some k -> cs_of g k = Some Freed
+  | B_ld _ => exists w r, hnd l = Some (w, Some r)
   | _ => True
   end.
 
@@ -824,3 +825,164 @@ Proof.
   split; [exact E2|]. intros n Hn. rewrite E1 in Hn. destruct (pnode_fresh g ls n IA Hn) as (_ & _ & Hi).
   rewrite (Hcs n Hi). apply (c_pn _ _ IC n Hn).
 Qed.
+
+Lemma thrC_reclaim_at g pr m h its0 : thrC g (Loc pr (reclaim_at g m) h its0).
+Proof.
+  unfold thrC, reclaim_at. cbn [at_]. destruct (znode (grec g m)) as [d|] eqn:E; [exact I|].
+  destruct (unfixed g) eqn:U; [reflexivity|]. intros k Hk. unfold znd in Hk. congruence.
+Qed.
+Lemma head_in_lst g p k : GS g p -> head g = Some k -> In k (lst g).
+Proof.
+  intros G H. destruct (gs_fwd _ _ G) as [A _]. rewrite H in A. symmetry in A. destruct (hd_opt_In _ _ A) as [r E].
+  rewrite E. left. reflexivity.
+Qed.
+
+Lemma nh_views2 g g' ls t l l' : InvA g ls -> InvB g ls -> InvC g ls -> nth_error ls t = Some l ->
+  holds (at_ l) = false -> holds (at_ l') = false -> wmtx g' = wmtx g ->
+  (forall z, priv_rec (hpc g ls) = Some z -> znd g' z = znd g z) ->
+  (forall k, isnode g k = true -> cs_of g' k = cs_of g k) ->
+  enode g' (upd ls t l') = enode g ls /\ (forall n, pnode (hpc g' (upd ls t l')) = Some n -> cs_of g' n = Some Constr) /\
+  hpc g' (upd ls t l') = hpc g ls.
+Proof.
+  intros IA IB IC Hl Hh Hh' Hm Hz Hcs.
+  destruct (enode_other g g' ls t l l' IA Hl Hh Hm Hz) as [E1 E2].
+  split; [exact E2|]. split; [|exact E1]. intros n Hn. rewrite E1 in Hn. destruct (pnode_fresh g ls n IA Hn) as (_ & _ & Hi).
+  rewrite (Hcs n Hi). apply (c_pn _ _ IC n Hn).
+Qed.
+Lemma h_views g g' ls t l l' : InvA g ls -> nth_error ls t = Some l -> holds (at_ l) = true -> wmtx g' = wmtx g ->
+  hpc g ls = at_ l /\ hpc g' (upd ls t l') = at_ l' /\ wmtx g = Some t.
+Proof.
+  intros IA Hl Hh Hm. destruct (hpc_holder g ls t l IA Hl Hh) as [A B]. split; [exact A|]. split; [|exact B].
+  apply (hpc_self g' ls t l l' Hl). congruence.
+Qed.
+(* the private record of the mutex holder is not on the log and differs from the cells other threads modify *)
+Lemma holder_priv_notin g ls z : InvB g ls -> priv_rec (hpc g ls) = Some z -> ~ In z (zlog g) /\ isrec g z = true.
+Proof.
+  intros IB Hz. unfold hpc in Hz. destruct (wmtx g) as [a|]; [|discriminate].
+  unfold pcof, locof in Hz. destruct (nth_error ls a) as [la|] eqn:Ea; [|discriminate].
+  destruct (priv_isrec g a la z (b_thr _ _ IB a la Ea) Hz) as [A B]. auto.
+Qed.
+
+Lemma hpc_free g ls : wmtx g = None -> hpc g ls = Idle.
+Proof. intros H. unfold hpc. rewrite H. reflexivity. Qed.
+Lemma past_dd_body o z : past_dd (body_pc o) z = false.
+Proof. destruct o; reflexivity. Qed.
+Lemma thrC_body g pr o w z its0 : thrC g (Loc pr (body_pc o) (Some (w, Some z)) its0).
+Proof. unfold thrC. destruct o; cbn; eauto. Qed.
+
+(* ---------- every node a step touches is alive ---------- *)
+Lemma lst_okn g ls k : InvA g ls -> InvC g ls -> In k (lst g) -> okn g k = true.
+Proof. intros IA IC H. apply okn_iff. split; [apply (c_lst _ _ IC k H)|apply (gs_nodes _ _ (a_gs _ _ IA) k H)]. Qed.
+Lemma pnode_okn g ls n : InvA g ls -> InvC g ls -> pnode (hpc g ls) = Some n -> okn g n = true.
+Proof. intros IA IC H. apply okn_iff. split; [apply (c_pn _ _ IC n H)|apply (pnode_fresh g ls n IA H)]. Qed.
+
+Definition node_access (p : pc) : option nat :=
+  match p with
+  | N_ld _ c | D_rd _ c | E_ld0 _ c | E_ldb _ c _ | E_ldn _ c _ _ => Some c
+  | PF_next n _ | PB_back n _ => Some n
+  | PF_back _ old | PB_next _ old => Some old
+  | E_s1 _ _ _ (Some p) _ => Some p
+  | E_s2 _ _ _ _ (Some x) => Some x
+  | _ => None
+  end.
+Lemma node_access_ok g ls t l k : InvA g ls -> InvB g ls -> InvC g ls -> nth_error ls t = Some l ->
+  node_access (at_ l) = Some k -> okn g k = true.
+Proof.
+  intros IA IB IC Hl Hk.
+  assert (Href : forall c, In c (pc_refs (at_ l)) -> okn g c = true).
+  { intros c Hc. apply (refs_alive g ls IA IB IC t l c Hl). apply in_or_app. right. exact Hc. }
+  destruct (at_ l) eqn:E; try discriminate; cbn in Hk; try (inversion Hk; subst; apply Href; left; reflexivity).
+  all: assert (holds (at_ l) = true) as Hh by (rewrite E; reflexivity).
+  all: destruct (hpc_holder _ _ _ _ IA Hl Hh) as [Ehp _]; pose proof (a_gs _ _ IA) as G; rewrite Ehp, E in G.
+  all: pose proof (gs_hold _ _ G) as H; pose proof (gs_back _ _ G) as B; cbn [hold_ok back_ok] in H, B.
+  - inversion Hk; subst. apply (pnode_okn g ls k IA IC). rewrite Ehp, E. reflexivity.
+  - inversion Hk; subst. destruct H as (_ & _ & _ & _ & _ & _ & _ & Hd). destruct (hd_opt_In _ _ Hd) as [r Er].
+    apply (lst_okn g ls k IA IC). rewrite Er. left. reflexivity.
+  - inversion Hk; subst. apply (pnode_okn g ls k IA IC). rewrite Ehp, E. reflexivity.
+  - inversion Hk; subst. destruct H as (_ & _ & _ & _ & _ & _ & _ & Hd). apply (lst_okn g ls k IA IC). apply last_opt_In. exact Hd.
+  - destruct pv as [p|]; [|discriminate]. inversion Hk; subst. destruct H as (_ & l1 & l2 & El & Hp & _).
+    apply (lst_okn g ls k IA IC). rewrite El. apply in_or_app. left. apply last_opt_In. auto.
+  - match type of Hk with match ?v with Some _ => _ | None => _ end = _ => destruct v as [x|] end; [|discriminate]. inversion Hk; subst. destruct B as (_ & _ & _ & l1 & l2 & El & _ & Hx & _).
+    symmetry in Hx. destruct (hd_opt_In _ _ Hx) as [r Er]. apply (lst_okn g ls k IA IC). rewrite El, Er. apply in_or_app. right. left. reflexivity.
+Qed.
+
+(* ---------- the concrete publication / unlink / reclaim steps ---------- *)
+Section Concrete.
+  Variables (g : glob) (ls : list loc) (t : nat).
+  Hypothesis IA : InvA g ls.
+  Hypothesis IB : InvB g ls.
+  Hypothesis IC : InvC g ls.
+
+  Lemma holder_GS l : nth_error ls t = Some l -> holds (at_ l) = true -> GS g (at_ l) /\ hpc g ls = at_ l /\ wmtx g = Some t.
+  Proof.
+    intros Hl Hh. destruct (hpc_holder g ls t l IA Hl Hh) as [A B]. split; [rewrite <- A; apply (a_gs _ _ IA)|auto].
+  Qed.
+
+  Lemma stepC_P_e1 pr o n h its0 m : nth_error ls t = Some (Loc pr (P_e1 o n) h its0) ->
+    (m = MPushF n \/ m = MPushB n) ->
+    InvC (commit (with_head g (Some n)) m) (upd ls t (Loc pr (P_e2 n) h its0)).
+  Proof.
+    intros Hl Hm. destruct (holder_GS _ Hl eq_refl) as (G & Ehp & Emt). cbn [at_] in *.
+    pose proof (gs_hold _ _ G) as H. cbn [hold_ok] in H. destruct H as ((F1 & F2 & F3 & F4 & F5 & F6 & F7) & Hlst).
+    set (g' := commit (with_head g (Some n)) m).
+    assert (Hp2 : hpc g' (upd ls t (Loc pr (P_e2 n) h its0)) = P_e2 n) by (apply (hpc_self g' ls t _ (Loc pr (P_e2 n) h its0) Hl); exact Emt).
+    eapply (InvC_publish g g' ls t _ _ n None IA IB IC Hl); try reflexivity; try (intros; reflexivity); try (intros; discriminate); auto.
+    all: try (intros k; unfold g'; cbn [lst commit with_head]; rewrite Hlst; destruct Hm as [-> | ->]; cbn; (split; [intros [E|[]]; left; auto|intros [E|[]]; left; auto]); fail).
+    all: try (intros m0 E; unfold nx in *; congruence).
+    all: try (apply (c_pn _ _ IC n); rewrite Ehp; reflexivity).
+    all: try (unfold enode; rewrite Ehp; reflexivity).
+    all: try (unfold enode; rewrite Hp2; reflexivity).
+    all: try (rewrite Hp2; reflexivity).
+    all: try exact I.
+  Qed.
+
+  Lemma stepC_PF_head pr n h its0 : nth_error ls t = Some (Loc pr (PF_head n) h its0) ->
+    InvC (commit (with_head g (Some n)) (MPushF n)) (upd ls t (Loc pr P_unlock h its0)).
+  Proof.
+    intros Hl. destruct (holder_GS _ Hl eq_refl) as (G & Ehp & Emt). cbn [at_] in *.
+    pose proof (gs_hold _ _ G) as H. cbn [hold_ok] in H. destruct H as (old & F1 & F2 & F3 & F4 & F5 & F6 & F7 & F8).
+    destruct (hd_opt_In _ _ F8) as [r Er].
+    set (g' := commit (with_head g (Some n)) (MPushF n)).
+    assert (Hp2 : hpc g' (upd ls t (Loc pr P_unlock h its0)) = P_unlock) by (apply (hpc_self g' ls t _ (Loc pr P_unlock h its0) Hl); exact Emt).
+    eapply (InvC_publish g g' ls t _ _ n None IA IB IC Hl); try reflexivity; try (intros; reflexivity); try (intros; discriminate); auto.
+    all: try (intros k; unfold g'; cbn; split; [intros [E|E]; auto|intros [E|E]; auto]; fail).
+    all: try (intros m0 E; rewrite F3 in E; inversion E; subst; rewrite Er; left; reflexivity).
+    all: try (apply (c_pn _ _ IC n); rewrite Ehp; reflexivity).
+    all: try (unfold enode; rewrite Ehp; reflexivity).
+    all: try (unfold enode; rewrite Hp2; reflexivity).
+    all: try (rewrite Hp2; reflexivity).
+    all: try exact I.
+  Qed.
+
+  Lemma stepC_PB_next pr n old h its0 : nth_error ls t = Some (Loc pr (PB_next n old) h its0) ->
+    InvC (commit (setn g old (n_next (gnode g old) (Some n))) (MPushB n)) (upd ls t (Loc pr (PB_tail n) h its0)).
+  Proof.
+    intros Hl. destruct (holder_GS _ Hl eq_refl) as (G & Ehp & Emt). cbn [at_] in *.
+    pose proof (gs_hold _ _ G) as H. cbn [hold_ok] in H. destruct H as (F1 & F2 & F3 & F4 & F5 & F6 & F7 & F8).
+    assert (Hol : In old (lst g)) by (apply last_opt_In; exact F8).
+    assert (Hio : isnode g old = true) by (apply (gs_nodes _ _ G); exact Hol).
+    set (g1 := setn g old (n_next (gnode g old) (Some n))). set (g' := commit g1 (MPushB n)).
+    destruct (set_next_views g old (Some n) Hio) as (EN & EB & ED & EP). fold g1 in EN, EB, ED, EP.
+    destruct (nviews_setn g old (n_next (gnode g old) (Some n)) Hio) as [VI VR VC VH VT VL VM VLo VHi VX]. fold g1 in VI, VR, VC, VH, VT, VL, VM, VLo, VHi, VX.
+    assert (Hp2 : hpc g' (upd ls t (Loc pr (PB_tail n) h its0)) = PB_tail n).
+    { apply (hpc_self g' ls t _ (Loc pr (PB_tail n) h its0) Hl). change (wmtx g') with (wmtx g1). rewrite VX. exact Emt. }
+    assert (Hno : n <> old) by (intros ->; auto).
+    eapply (InvC_publish g g' ls t _ _ n (Some old) IA IB IC Hl); try reflexivity; auto.
+    all: try (intros k; change (lst g') with (lst g1 ++ [n]); rewrite VL, in_app_iff; cbn; split; [intros [E|[E|[]]]; auto|intros [E|E]; auto]; fail).
+    all: try (change (zlog g') with (zlog g1); unfold g1; apply modc_fields).
+    all: try (change (unfixed g') with (unfixed g1); unfold g1; apply modc_fields).
+    all: try (intros k Hk; change (nx g' k) with (nx g1 k); rewrite EN; destruct (Nat.eqb_spec k old) as [->|]; [congruence|reflexivity]).
+    all: try (intros k E; inversion E; subst k; split; [exact Hol|]; change (nx g' old) with (nx g1 old); rewrite EN, Nat.eqb_refl; reflexivity).
+    all: try (intros m0 E; congruence).
+    all: try (intros E; inversion E; auto; fail).
+    all: try (intros k; change (dl g' k) with (dl g1 k); apply ED).
+    all: try (intros k; change (isnode g' k) with (isnode g1 k); apply VI).
+    all: try (intros k; change (cs_of g' k) with (cs_of g1 k); apply VC).
+    all: try (intros z; change (grec g' z) with (grec g1 z); unfold g1; apply grec_setn; exact Hio).
+    all: try (apply (c_pn _ _ IC n); rewrite Ehp; reflexivity).
+    all: try (unfold enode; rewrite Ehp; reflexivity).
+    all: try (unfold enode; rewrite Hp2; reflexivity).
+    all: try (rewrite Hp2; reflexivity).
+    all: try exact I.
+  Qed.
+End Concrete.
